@@ -5,7 +5,7 @@
    square roots and inverses enter as witnesses (sqrt_ok, inv_ok). *)
 From Coq Require Import List Arith Bool ZArith QArith Qcanon Ring_theory.
 Import ListNotations.
-Require Import NV.C13.Model NV.C13.Exec NV.C13.Proofs NV.C13.ProofsInd.
+Require Import NV.C13.Model NV.C13.Exec NV.C13.Proofs NV.C13.ProofsInd NV.C13.ProofsSqrt.
 Local Open Scope nat_scope.
 
 Definition cring (T : Type) (t0 t1 : T) (tadd tmul : T -> T -> T) (topp : T -> T) : Prop :=
@@ -181,6 +181,44 @@ Theorem C13_matrix_bun_adjoint :
     dot T t0 tadd tmul (length rows) (mat_apply T t0 tadd tmul rows u) w = dot T t0 tadd tmul n u (mat_adj T t0 tadd tmul rows w).
 Proof. exact matrix_adjoint. Qed.
 
+(* ---- ScalingOperator._get_fct and DiagonalOperator.get_sqrt (ProofsSqrt.v) ---------------------
+   No ring laws are needed: the statements hold for every scalar type with the witnesses sqrt_ok / inv_ok. *)
+Theorem C13_scaling_draw_is_get_fct :
+  forall T t0 t1 tadd tmul tinv tsqrt tneg tzero c cplx dt n inv k xi,
+    draw T t0 t1 tadd tmul tinv tsqrt tneg tzero (CScal T c cplx dt) n inv k xi =
+    match dt with
+    | DNone => Refuse RRuntimeError
+    | _ => bind (get_fct T tinv tsqrt tneg tzero c cplx inv) (fun s => Ok (normal T t0 tmul dt s k xi))
+    end.
+Proof. exact scaling_draw_is_get_fct. Qed.
+
+Theorem C13_get_fct_sound :
+  forall T t1 tmul tinv tsqrt tneg tzero c cplx inv,
+    (forall s, get_fct T tinv tsqrt tneg tzero c cplx inv = Ok s ->
+       (cplx || tneg c || (tzero c && inv)) = false /\
+       (sqrt_ok T tmul tsqrt c -> inv = false -> tmul s s = c) /\
+       (inv_ok T t1 tmul tinv (tsqrt c) -> inv = true -> tmul (tsqrt c) s = t1)) /\
+    (forall e, get_fct T tinv tsqrt tneg tzero c cplx inv = Refuse e <->
+       (e = RValueError /\ (cplx || tneg c || (tzero c && inv)) = true)).
+Proof. exact get_fct_sound. Qed.
+
+Theorem C13_diag_get_sqrt_sound :
+  forall T tmul tsqrt tneg d cplx trafo dt n,
+    (forall o, diag_get_sqrt T tsqrt tneg d cplx trafo dt n = Ok o ->
+       (cplx || any_lt0 T tneg d n) = false /\
+       exists r, o = CDiag T r false trafo dt /\ (forall j, sqrt_ok T tmul tsqrt (d j) -> tmul (r j) (r j) = d j)) /\
+    (forall e, diag_get_sqrt T tsqrt tneg d cplx trafo dt n = Refuse e <->
+       (e = RValueError /\ (cplx || any_lt0 T tneg d n) = true)).
+Proof. exact diag_get_sqrt_sound. Qed.
+
+Theorem C13_diag_draw_through_get_sqrt :
+  forall T t0 t1 tadd tmul tinv tsqrt tneg tzero d cplx trafo dt n inv k xi r c' t' dt',
+    diag_get_sqrt T tsqrt tneg d cplx trafo dt n = Ok (CDiag T r c' t' dt') ->
+    dt <> DNone -> xorb inv (Nat.leb 2 trafo) = false ->
+    draw T t0 t1 tadd tmul tinv tsqrt tneg tzero (CDiag T d cplx trafo dt) n inv k xi =
+    Ok (cmap T (fun x i => tmul (x i) (r i)) (fst (normal T t0 tmul dt t1 k xi)), snd (normal T t0 tmul dt t1 k xi)).
+Proof. exact diag_draw_through_get_sqrt. Qed.
+
 (* ---- non-vacuity ---- *)
 Example C13_Qc_is_a_cring : cring Qc Q0 Q1 Qcplus Qcmult Qcopp.
 Proof. exact Qcrt. Qed.
@@ -203,3 +241,9 @@ Qed.
 
 Example C13_sqrt_witness : sqrt_ok Qc Qcmult qsqrt (q 9 4) /\ inv_ok Qc Q1 Qcmult Qcinv (qsqrt (q 9 4)).
 Proof. split; apply Qc_is_canon; vm_compute; reflexivity. Qed.
+
+Example C13_get_sqrt_example :
+  getsqrt_ok [q 4 1; Q0; q 1 4] false 2 DComplex 3 (inr ([q 2 1; Q0; q 1 2], false, 2, DComplex)) = true /\
+  getsqrt_ok [q 4 1; q (-1) 1] false 0 DReal 2 (inl RValueError) = true /\
+  getfct_ok (q 16 1) false true (inr (q 1 4)) = true /\ getfct_ok Q0 false true (inl RValueError) = true.
+Proof. vm_compute. repeat split. Qed.
